@@ -96,7 +96,8 @@ def scenario(c, k, scratch):
         elif typ == "R":
             f = os.path.join(scratch, "c%d_%d.state" % (k, nsave))
             nsave += 1
-            L += ["save %s %s" % (c.get("fmt", "text"), f), "fresh", "capture"] + conf + ["load %s" % f]
+            ld = "load" if not c.get("mem") else ("loadbuf" if c.get("fmt", "text") == "binary" else "loadstr")   # file / memory buffer / string
+            L += ["save %s %s" % (c.get("fmt", "text"), f), "fresh", "capture"] + conf + ["%s %s" % (ld, f)]
         L += ["step", "rdump"]
     L.append("echo END %d" % k)
     return L
@@ -214,6 +215,8 @@ def parse_impl(lines):
             cur = None
         elif l.startswith("CONFIG") or l.startswith("LOAD") or l.startswith("SAVE"):
             cs["config"].append(l)
+        elif l.startswith("STEP ") and "err=" in l and "err=ok" not in l:
+            cs["config"].append(l)          # a step that raised an error: the scenario is not a valid history
         elif l.startswith("TI "):
             m = re.search(r"Lambda=\s*(\S+)\s+dA/dLambda=\s*(\S+)", l)
             if m:
@@ -367,12 +370,12 @@ def oracle(c, d, steps):
     evinfo = []
     for (typ, xs) in c["events"]:
         if t is None:
-            t = c["it0"]
+            t = c.get("t_start", c["it0"])       # t_start: the history is the continuation of an earlier one (first_step stays it0)
         elif typ == "S":
             t += 1
         evinfo.append((typ, t, xs))
     W = Fr(0)
-    work_amb = False
+    work_amb = bool(c.get("no_accumulators"))
     seen = set()
     ti_acc = {}     # stage -> (sum, count)
     nst = d["nstages"]
@@ -417,7 +420,7 @@ def oracle(c, d, steps):
                 bad.append(("work:%s" % ("centers" if m == "cc" else "k"), "step %d: accumulated work %r, sum of force x increment over the steps so far %r" % (t, o["W"], float(W))))
         # ---- staged TI: one line per stage, written by the new step that ends it, = mean of dU/dlambda over the
         #      stage's sampled steps (steps s in (first+gN, first+(g+1)N] with equil = 0 or (s-first) mod N >= equil)
-        if m in ("ks", "kl"):
+        if m in ("ks", "kl") and not c.get("no_accumulators"):
             eq = c["equil"]
             if new and t > first:
                 g = (t - first - 1) // N
@@ -454,7 +457,7 @@ WIDTHS = [0.25, 0.5, 1.0, 2.0]
 
 def gen_case(r, k, quick=True):
     kind = r.choice(["harmonic", "harmonic", "harmonic", "walls", "walls", "linear"])
-    nv = r.choice([1, 1, 2])
+    nv = r.choice([1, 1, 2, 2, 3])
     vars_ = []
     for i in range(nv):
         v = {"w": r.choice(WIDTHS), "per": False}
@@ -463,8 +466,8 @@ def gen_case(r, k, quick=True):
             v["P"] = r.choice([4.0, 8.0])
             v["wc"] = r.choice([0.0, 0.0, 1.0, -2.5, 4.0])
         vars_.append(v)
-    c = {"kind": kind, "vars": vars_, "id": k, "it0": r.choice([0, 0, 0, 5, 12]), "accw": False,
-         "dec": False, "lexp": 1.0, "equil": 0, "fmt": r.choice(["text", "text", "binary"])}
+    c = {"kind": kind, "vars": vars_, "id": k, "it0": r.choice([0, 0, 0, 5, 12, 12, 2 ** 31 - 2, 2 ** 32 + 5, 2 ** 53, 2 ** 62 - 100]), "accw": False,
+         "dec": False, "lexp": 1.0, "equil": 0, "fmt": r.choice(["text", "text", "binary"]), "mem": r.random() < 0.4}
     if kind == "walls":
         modes = ["none", "none", "kc", "ks", "ks", "kl"]
     else:
@@ -495,7 +498,7 @@ def gen_case(r, k, quick=True):
             c["lwk"], c["uwk"] = r.choice([(1.0, 4.0), (4.0, 1.0), (2.0, 8.0), (0.5, 2.0), (9.0, 4.0), (3.0, 3.0)])
             c["k"] = None
     # schedules
-    c["N"] = r.choice([1, 2, 2, 3, 3, 4, 5, 8])
+    c["N"] = r.choice([1, 2, 2, 3, 3, 4, 5, 6, 7, 8, 12])
     c["nstages"] = r.choice([1, 2, 3, 4])
     if m in ("kc", "ks", "kl"):
         c["dec"] = r.random() < 0.3 and not (kind == "walls" and c.get("lwk") is not None)
@@ -534,8 +537,10 @@ def gen_case(r, k, quick=True):
                 anchor = r.choice([c["lower"][i], c["upper"][i]])
             else:
                 anchor = r.choice([c["centers"][i], c["target_centers"][i]])
-            if mode < 0.25:
+            if mode < 0.2:
                 x = anchor                       # exactly on the wall / the centre
+            elif mode < 0.3:
+                x = anchor + r.choice([-1, 1]) * 2.0 ** -20      # just inside / just outside
             elif mode < 0.5 and v["per"]:
                 x = anchor + r.choice([-1, 1]) * v["P"] / 2 + r.choice([0, 0, 0.25, -0.25])   # at the far side of the circle
             elif mode < 0.8:
@@ -554,8 +559,23 @@ def gen_case(r, k, quick=True):
             rel = (t - c["it0"]) % c["N"] if m != "none" else 2
             pr = 0.45 if rel in (0, 1) else 0.12
             if r.random() < pr:
-                ev.append((r.choice(list(seg)), xs if r.random() < 0.6 else [x + 0.125 for x in xs]))
+                # a step computed again keeps its configuration, or is perturbed by a quarter of the width (a jump of more than half
+                # a width between the saved and the recomputed value is an error of the restart: colvar::calc_colvar_properties)
+                ev.append((r.choice(list(seg)), xs if r.random() < 0.6 else [x + 0.25 * v["w"] for x, v in zip(xs, vars_)]))
     c["events"] = ev
+    # the whole problem at another length scale (powers of two: every operation stays exact); energies do not change
+    sc = r.choice([1.0, 1.0, 1.0, 2.0 ** -10, 2.0 ** 20])
+    if sc != 1.0:
+        c["scale"] = sc
+        for v in vars_:
+            v["w"] *= sc
+            if v["per"]:
+                v["P"] *= sc
+                v["wc"] *= sc
+        for key in ("centers", "target_centers", "lower", "upper"):
+            if key in c:
+                c[key] = [x * sc for x in c[key]]
+        c["events"] = [(typ, [x * sc for x in xs]) for typ, xs in ev]
     return c
 
 
@@ -1095,6 +1115,7 @@ def manifold_part(run, r, runner, n):
         t = None
         N, nst = c["N"], c["nstages"]
         W = 0.0
+        wamb = False
         seen = set()
         prev_c = None
         okrun = True
@@ -1130,8 +1151,10 @@ def manifold_part(run, r, runner, n):
                         inc = [x - y for x, y in zip(cn, co)]
                         if v["kind"] == "p":
                             inc = [float(shortest(Fr(cn[0]) - Fr(co[0]), Fr(v["P"])))]
+                            if abs(abs(inc[0]) - v["P"] / 2) < 1e-9:
+                                wamb = True       # the centre moves by half a period in one step: two closest images (DESIGN 3.2)
                         W += sum(x * y for x, y in zip(f, inc))
-                if not close(W, o["W"], 1e-9) and abs(W - o["W"]) > 1e-11:
+                if not wamb and not close(W, o["W"], 1e-9) and abs(W - o["W"]) > 1e-11:
                     run.violation("work:centers:anytype", "step %d: accumulated work %r, sum of force . centre increment over the steps so far %r" % (t, o["W"], W), rp)
             seen.add(t)
         if not okrun:
@@ -1221,8 +1244,8 @@ def kman_part(run, r, runner, n):
         c["pos"] = [gen_positions(r, c["mvar"]) for _ in c["events"]]
         last = None
         for j, (typ, xs) in enumerate(c["events"]):      # a step computed again keeps its configuration (or is perturbed, as gen_case decided)
-            if typ != "S" and last is not None and xs == c["events"][last][1]:
-                c["pos"][j] = c["pos"][last]
+            if typ != "S" and last is not None:
+                c["pos"][j] = c["pos"][last]       # same configuration (a jump of the value at a restart is an input error)
             if typ == "S":
                 last = j
         cases.append(c)
@@ -1245,7 +1268,8 @@ def kman_part(run, r, runner, n):
             elif typ == "R":
                 f = os.path.join(runner.scratch, "km%d_%d.state" % (k, nsave))
                 nsave += 1
-                L += ["save %s %s" % (c.get("fmt", "text"), f), "fresh", "capture"] + conf + ["load %s" % f]
+                ld = "load" if not c.get("mem") else ("loadbuf" if c.get("fmt", "text") == "binary" else "loadstr")   # file / memory buffer / string
+                L += ["save %s %s" % (c.get("fmt", "text"), f), "fresh", "capture"] + conf + ["%s %s" % (ld, f)]
             L += ["step", "rdump"]
         L.append("echo END %d" % k)
         c["scenario"] = L
@@ -1594,7 +1618,10 @@ def extl_part(run, r, runner, n):
         if not c["bypass"]:
             bl = bl[:-1] + ["  bypassExtendedLagrangian off", "}"]
         scn += ["echo CASE %d" % k, "natoms 1", "temperature 300", "dt 1", "new", "capture", "config EOF"] + cv + bl + ["EOF", "show atomf 0 cv 0 energy 0 bias 0"]
-        for z in c["zs"]:
+        c["flip"] = r.randrange(1, len(c["zs"])) if r.random() < 0.6 else None     # the option switched by script before this event
+        for j, z in enumerate(c["zs"]):
+            if c["flip"] == j:
+                scn.append("script cv bias r set bypass_extended_Lagrangian_coordinates %s" % ("off" if c["bypass"] else "on"))
             scn += ["pos 1 0 0 %s" % hx(z), "step", "rdump"]
         scn.append("echo END %d" % k)
     rc2, iout, e2 = V.run_lines(runner.unit, scn, cwd=runner.scratch)
@@ -1608,14 +1635,19 @@ def extl_part(run, r, runner, n):
         if cs is None or not cs["complete"] or len(cs["steps"]) != len(c["zs"]) or any("err=ok" not in l for l in cs["config"]):
             run.mismatch("walls-extended", c, ((cs or {}).get("config", []) + (cs or {}).get("raw", []))[-3:], "complete run")
             continue
+        serr = [l for l in cs["raw"] if l.startswith("SCRIPT") and "err=ok" not in l]
+        if serr:
+            run.violation("script:feature-name-not-found", "cv bias r set bypass_extended_Lagrangian_coordinates %s: %s" % ("off" if c["bypass"] else "on", serr[0][:200]), rp)
+            continue
         ax = [float.fromhex(parse_fields(l)["AX"]) for l in cs["raw"] if l.startswith("RD ")]
         vals = []
         moved = False
-        for z, a, o in zip(c["zs"], ax, cs["steps"]):
+        for j, (z, a, o) in enumerate(zip(c["zs"], ax, cs["steps"])):
             if a != z:
                 run.violation("harness:actual-value", "the variable proper is %r, imposed %r" % (a, z), rp)
             moved = moved or o["X"][0] != a
-            vals.append(a if c["bypass"] else o["X"][0])
+            byp = c["bypass"] if (c["flip"] is None or j < c["flip"]) else not c["bypass"]
+            vals.append(a if byp else o["X"][0])
         c2 = dict(c, events=[("S", [v_]) for v_ in vals])
         ml, d = model_case(c2, runner.wallsinit)
         for sig, text in oracle(c2, d, cs["steps"]):
@@ -1627,6 +1659,353 @@ def extl_part(run, r, runner, n):
         bad = compare(c2, d, parse_model_line(line), cs["steps"])
         if bad:
             run.mismatch("walls-extended", {"case": c2, "model_case": mlc}, bad, "agreement")
+
+
+def ediff_moving_part(run, r, runner, n):
+    """colvarmodule::energy_difference on restraints whose centres or force constant are MOVING (any schedule, run boundaries,
+    restarts): the value is the closed-form difference at the currently scheduled parameters, the call changes nothing
+    (energy, k, centres, stage, work, TI accumulator), and the rest of the history is the model's history without the call."""
+    cases = []
+    tries = 0
+    while len(cases) < n and tries < 40 * n:
+        tries += 1
+        c = gen_case(r, len(cases))
+        if c["kind"] not in ("harmonic", "linear") or c["mode"] == "none":
+            continue
+        c["ej"] = r.randrange(1, len(c["events"]))
+        if c["mode"] in ("ks", "kl") and r.random() < 0.6:        # aim at the end of a stage
+            t = None
+            for j, (typ, xs) in enumerate(c["events"]):
+                t = c["it0"] if t is None else (t + 1 if typ == "S" else t)
+                if j > 0 and (t - c["it0"]) % c["N"] == 0:
+                    c["ej"] = j
+                    break
+        c["k2"] = r.choice([0.25, 4.0, 1.5])
+        cases.append(c)
+    scn = []
+    for k, c in enumerate(cases):
+        L = scenario(c, k, runner.scratch)
+        pos = [j for j, l in enumerate(L) if l == "rdump"][c["ej"]]
+        L = L[:pos + 1] + ["ediff r forceConstant %r" % c["k2"], "rdump"] + L[pos + 1:]
+        scn += L
+    mlines, ds = [], []
+    for c in cases:
+        ml, d = model_case(c, runner.wallsinit)
+        mlines.append(ml); ds.append(d)
+    rc, mout, e = V.run_lines(runner.model, mlines)
+    rc2, iout, e2 = V.run_lines(runner.unit, scn, cwd=runner.scratch, timeout=900)
+    impl = parse_impl(iout)
+    ed = {}
+    cur = None
+    for l in iout:
+        if l.startswith("echo CASE"):
+            cur = int(l.split()[2])
+        elif l.startswith("EDIFF ") and cur is not None:
+            d_ = parse_fields(l)
+            ed[cur] = (float.fromhex(d_["de"]), d_["err"])
+    for k, c in enumerate(cases):
+        cs = impl.get(k)
+        run.dist("energy_difference:moving:%s:%s" % (c["kind"], c["mode"]))
+        rp = {"kind": "scenario", "case": c, "ediff_after_event": c["ej"], "alternative_k": c["k2"]}
+        if cs is None or not cs["complete"] or len(cs["steps"]) != len(c["events"]) + 1 or k not in ed or any("err=ok" not in l for l in cs["config"]):
+            run.mismatch("energy_difference", {"case": c}, ((cs or {}).get("config", []) + (cs or {}).get("raw", []))[-3:], "complete run")
+            continue
+        j = c["ej"]
+        before, after = cs["steps"][j], cs["steps"][j + 1]
+        steps = cs["steps"][:j + 1] + cs["steps"][j + 2:]
+        after["TI"] = after["TI"] or []
+        same = all(before[f] == after[f] for f in ("K", "C", "ST", "W", "FE", "KI")) and close(before["E"], after["E"]) and not after["TI"] \
+            and all(close(a, b) for a, b in zip(before["F"], after["F"]))
+        if not same:
+            run.violation("energy-difference:state-changed", "%s restraint, schedule %s, energy_difference after event %d (step %d): k/centres/stage/W/FE/forces %r, before the call %r; lines written %r" % (
+                c["kind"], c["mode"], j, before["it"], [after[f] for f in ("K", "C", "ST", "W", "FE", "F")], [before[f] for f in ("K", "C", "ST", "W", "FE", "F")], after["TI"]), rp)
+        de, err = ed[k]
+        xs = c["events"][j][1]
+        E0, _, _ = spec_terms(c, ds[k], fr(before["K"]), before["C"], xs)
+        E1, _, _ = spec_terms(c, ds[k], fr(c["k2"]), before["C"], xs)
+        if err != "ok" or not close(de, float(E1 - E0)):
+            run.violation("energy-difference:value", "%s restraint, schedule %s, step %d, scheduled k %r centres %r, values %r, alternative k %r: energy_difference %r (err %s), closed forms give %r" % (
+                c["kind"], c["mode"], before["it"], before["K"], before["C"], xs, c["k2"], de, err, float(E1 - E0)), rp)
+        c2, isteps, ms, cut = cut_ambiguous(c, steps, parse_model_line(mout[k]) if k < len(mout) else [])
+        bad = compare(c2, ds[k], ms, isteps)
+        if bad:
+            run.mismatch("energy_difference", {"case": c, "model_case": mlines[k]}, bad, "the history without the call")
+        for sig, text in oracle(c2, ds[k], isteps):
+            run.violation(sig, text + " (history with an energy_difference call after event %d)" % j, rp)
+        run.count("ediffm%d" % k, True)
+
+
+def session_part(run, r, runner, n):
+    """one session with more than the restraint under test: a second harmonic restraint r2 on the same variables, a rejected
+    configuration in the middle of the run, then r2 deleted by script.  The restraint r must follow its model as if alone;
+    r2 has its closed-form energy while it exists."""
+    cases = []
+    tries = 0
+    while len(cases) < n and tries < 40 * n:
+        tries += 1
+        c = gen_case(r, len(cases))
+        if c["kind"] == "walls" and any(v["per"] for v in c["vars"]):
+            continue
+        c["events"] = [(("B" if t == "R" else t), xs) for t, xs in c["events"]]      # one process: the second restraint is not in the model
+        ne = len(c["events"])
+        if ne < 4:
+            continue
+        c["jbad"], c["jdel"] = ne // 3, (2 * ne) // 3
+        sc = c.get("scale", 1.0)
+        c["c2"] = [V.dyadic(r, -3, 3, bits=2) * sc for _ in c["vars"]]
+        cases.append(c)
+    scn = []
+    for k, c in enumerate(cases):
+        L = scenario(c, k, runner.scratch)
+        e0 = L.index("EOF")
+        L = L[:e0] + ["harmonic {", "  name r2", "  colvars " + " ".join("v%d" % i for i in range(len(c["vars"]))), "  centers " + vec(c["c2"]), "  forceConstant 0.75", "}"] + L[e0:]
+        rd = [j for j, l in enumerate(L) if l == "rdump"]
+        pd = rd[c["jdel"]]
+        L = L[:pd + 1] + ["script cv bias r2 delete", "script cv bias r set apply_force on"] + L[pd + 1:]
+        pb = rd[c["jbad"]]
+        # ... and the restraint does not apply its force for a while (its parameters, energy and schedule go on)
+        L = L[:pb + 1] + ["config EOF", "harmonic {", "  name bad", "  colvars v0", "  targetCenters 1.0", "}", "EOF", "script cv bias r set apply_force off"] + L[pb + 1:]
+        scn += L
+    mlines, ds = [], []
+    for c in cases:
+        ml, d = model_case(c, runner.wallsinit)
+        mlines.append(ml); ds.append(d)
+    rc, mout, e = V.run_lines(runner.model, mlines)
+    rc2, iout, e2 = V.run_lines(runner.unit, scn, cwd=runner.scratch, timeout=900)
+    # split the RD records by bias name
+    per = {}
+    cur = None
+    for l in iout:
+        if l.startswith("echo CASE"):
+            cur = int(l.split()[2]); per[cur] = {"r": [], "r2": [], "cfg": [], "end": False}
+        elif cur is not None and l.startswith("RD "):
+            per[cur].setdefault(l.split()[1], []).append(l)
+        elif cur is not None and l.startswith("TI "):
+            per[cur]["r"].append(l)
+        elif cur is not None and (l.startswith("CONFIG") or (l.startswith("STEP ") and "err=ok" not in l)):
+            per[cur]["cfg"].append(l)
+        elif cur is not None and l.startswith("echo END"):
+            per[cur]["end"] = True
+    for k, c in enumerate(cases):
+        run.dist("session:two-restraints+rejected-config+delete")
+        rp = {"kind": "scenario", "case": c}
+        p_ = per.get(k)
+        if not p_ or not p_["end"]:
+            run.violation("harness:incomplete", "session scenario %d did not complete (rc %d)" % (k, rc2), rp)
+            continue
+        cfg = [l for l in p_["cfg"] if l.startswith("CONFIG")]
+        if len(cfg) != 2 or "err=ok" not in cfg[0] or "err=ok" in cfg[1] or any(l.startswith("STEP") for l in p_["cfg"]):
+            run.mismatch("session", {"case": c}, p_["cfg"], "first configuration accepted, second one refused, no step error")
+            continue
+        steps = parse_impl(["echo CASE 0"] + p_["r"] + ["echo END 0"])[0]["steps"]
+        if len(steps) != len(c["events"]):
+            run.mismatch("session", {"case": c}, len(steps), len(c["events"]))
+            continue
+        n2 = len(p_["r2"])
+        if n2 != c["jdel"] + 1:
+            run.violation("session:deleted-restraint", "the second restraint was dumped %d times, it exists for the first %d events" % (n2, c["jdel"] + 1), rp)
+        for l, (typ, xs) in zip(p_["r2"], c["events"]):
+            d_ = parse_fields(l)
+            c2 = dict(c, kind="harmonic")
+            E2, _, _ = spec_terms(c2, ds[k], Fr(3, 4), c["c2"], xs)
+            if not close(float.fromhex(d_["E"]), float(E2)):
+                run.violation("session:second-restraint-energy", "second restraint (centres %r, k 0.75) at values %r: energy %r, closed form %r" % (c["c2"], xs, float.fromhex(d_["E"]), float(E2)), rp)
+                break
+        c2, isteps, ms, cut = cut_ambiguous(c, steps, parse_model_line(mout[k]) if k < len(mout) else [])
+        bad = compare(c2, ds[k], ms, isteps)
+        if bad:
+            run.mismatch("session", {"case": c, "model_case": mlines[k]}, bad, "the restraint alone")
+        for sig, text in oracle(c2, ds[k], isteps):
+            run.violation(sig, text + " (session with a second restraint, a rejected configuration after event %d and a deletion after event %d)" % (c["jbad"], c["jdel"]), rp)
+        run.count("session%d" % k, True)
+
+
+def reconfig_part(run, r, runner, n):
+    """a job restarted from a state with a configuration that legally differs in a parameter the state does not carry: the
+    force constant of a restraint whose centres move, the centres of a restraint whose force constant changes, the width of
+    a variable.  From the restart on the new parameter is in effect, the schedule (first step, stage, moving parameter)
+    continues from the state."""
+    cases = []
+    tries = 0
+    while len(cases) < n and tries < 60 * n:
+        tries += 1
+        c = gen_case(r, len(cases))
+        if c["kind"] != "harmonic" or c["mode"] == "none" or c.get("scale") or any(v["per"] for v in c["vars"]):
+            continue
+        c["events"] = [e for e in c["events"] if e[0] == "S"]
+        if len(c["events"]) < 4:
+            continue
+        c["jr"] = r.randrange(1, len(c["events"]) - 1)
+        what = r.choice(["width"] + (["k"] if c["mode"] in ("cc", "cs") else ["centers"]))
+        c["what"] = what
+        c["accw"] = False
+        cases.append(c)
+    scn = []
+    for k, c in enumerate(cases):
+        c2 = json.loads(json.dumps(c))
+        if c["what"] == "k":
+            c2["k"] = c["k"] * 2.0
+        elif c["what"] == "centers":
+            c2["centers"] = [x + 0.5 for x in c["centers"]]
+        else:
+            c2["vars"][0]["w"] = c["vars"][0]["w"] * 2.0
+        c["c2"] = c2
+        conf1 = ["config EOF"] + config_text(c) + ["EOF"]
+        conf2 = ["config EOF"] + config_text(c2) + ["EOF"]
+        L = ["echo CASE %d" % k, "natoms %d" % len(c["vars"]), "new"]
+        if c["it0"]:
+            L.append("setstep %d" % c["it0"])
+        L += ["capture"] + conf1 + ["show atomf 0 cv 0 energy 0 bias 0"]
+        for j, (typ, xs) in enumerate(c["events"]):
+            for i, x in enumerate(xs):
+                L.append("pos %d 0 0 %s" % (i + 1, hx(x)))
+            L += ["step", "rdump"]
+            if j == c["jr"]:
+                f = os.path.join(runner.scratch, "rc%d.state" % k)
+                ld = "load" if not c.get("mem") else ("loadbuf" if c["fmt"] == "binary" else "loadstr")
+                L += ["save %s %s" % (c["fmt"], f), "fresh", "capture"] + conf2 + ["%s %s" % (ld, f), "step", "rdump"]
+        L.append("echo END %d" % k)
+        scn += L
+    rc2, iout, e2 = V.run_lines(runner.unit, scn, cwd=runner.scratch, timeout=900)
+    impl = parse_impl(iout)
+    for k, c in enumerate(cases):
+        cs = impl.get(k)
+        run.dist("restart-with-changed-%s:%s" % (c["what"], c["mode"]))
+        rp = {"kind": "reconfig", "case": {kk: vv for kk, vv in c.items() if kk != "c2"}, "changed": c["what"]}
+        if cs is None or not cs["complete"] or len(cs["steps"]) != len(c["events"]) + 1 or any("err=ok" not in l for l in cs["config"]):
+            run.mismatch("reconfig", rp["case"], ((cs or {}).get("config", []) + (cs or {}).get("raw", []))[-3:], "complete run")
+            continue
+        jr = c["jr"]
+        dA = post_init(c, runner.wallsinit)
+        cA = dict(c, events=c["events"][:jr + 1], no_accumulators=True)
+        c2 = c["c2"]
+        dB = post_init(c2, runner.wallsinit)
+        if c["what"] == "k" and c["mode"] in ("cc", "cs"):
+            pass                                   # the fixed force constant comes from the new configuration
+        cB = dict(c2, events=[("S", c["events"][jr][1])] + c["events"][jr + 1:], t_start=c["it0"] + jr, no_accumulators=True)
+        if c["what"] == "centers":
+            pass                                   # fixed centres come from the new configuration; the moving k from the state
+        for sig, text in oracle(cA, dA, cs["steps"][:jr + 1]):
+            run.violation(sig, text, rp)
+        for sig, text in oracle(cB, dB, cs["steps"][jr + 1:]):
+            run.violation(sig + ":restart-with-changed-" + c["what"], text + " (job restarted at step %d with %s changed: %r -> %r)" % (
+                c["it0"] + jr, c["what"], {"k": c["k"], "centers": c["centers"], "width": c["vars"][0]["w"]}[c["what"]],
+                {"k": c2["k"], "centers": c2["centers"], "width": c2["vars"][0]["w"]}[c["what"]]), rp)
+        run.count("reconfig%d" % k, True)
+
+
+def accw_toggle_part(run, r, runner, n):
+    """outputAccumulatedWork switched on, off and on again by script (cv bias r set output_accumulated_work) on a restraint
+    whose force constant changes continuously: the work grows by dU/dk x (k increment) at the steps computed while the
+    option is on and stays put while it is off."""
+    cases = []
+    for k in range(n):
+        N = r.choice([3, 4, 5, 6, 7, 8])
+        c = {"w": r.choice(WIDTHS), "k": r.choice([0.5, 1.0, 2.0]), "tk": r.choice([0.0, 4.0, 6.0]), "N": N, "cen": V.dyadic(r, -2, 2, bits=2),
+             "xs": [V.dyadic(r, -4, 4, bits=3) for _ in range(N + 3)]}
+        js = sorted(r.sample(range(0, N + 2), 3))
+        c["on1"], c["off"], c["on2"] = js
+        cases.append(c)
+    scn = []
+    for k, c in enumerate(cases):
+        scn += ["echo CASE %d" % k, "natoms 1", "new", "capture", "config EOF"] + colvar_block(0, {"w": c["w"], "per": False}) + [
+            "harmonic {", "  name r", "  colvars v0", "  centers %r" % c["cen"], "  forceConstant %r" % c["k"], "  targetForceConstant %r" % c["tk"],
+            "  targetNumSteps %d" % c["N"], "}", "EOF", "show atomf 0 cv 0 energy 0 bias 0"]
+        for j, x in enumerate(c["xs"]):
+            scn += ["pos 1 0 0 %s" % hx(x), "step", "rdump"]
+            if j in (c["on1"], c["on2"]):
+                scn.append("script cv bias r set output_accumulated_work on")
+            elif j == c["off"]:
+                scn.append("script cv bias r set output_accumulated_work off")
+        scn.append("echo END %d" % k)
+    rc2, iout, e2 = V.run_lines(runner.unit, scn, cwd=runner.scratch)
+    impl = parse_impl(iout)
+    for k, c in enumerate(cases):
+        cs = impl.get(k)
+        run.dist("accumulated-work:switched-by-script")
+        if cs is None or not cs["complete"] or len(cs["steps"]) != len(c["xs"]) or any("err=ok" not in l for l in cs["config"]):
+            run.mismatch("accw-toggle", c, ((cs or {}).get("config", []) + (cs or {}).get("raw", []))[-3:], "complete run")
+            continue
+        W = Fr(0)
+        kof = lambda t: fr(c["k"]) + (fr(c["tk"]) - fr(c["k"])) * min(Fr(1), Fr(t, c["N"]))
+        for t, (x, o) in enumerate(zip(c["xs"], cs["steps"])):
+            on = (c["on1"] < t <= c["off"]) or (t > c["on2"])
+            if on and t >= 1:
+                W += (fr(x) - fr(c["cen"])) ** 2 / (2 * fr(c["w"]) ** 2) * (kof(t) - kof(t - 1))
+            if not close(float(W), o["W"]):
+                run.violation("work:k:switched-by-script", "k %r -> %r in %d steps, work switched on after step %d, off after %d, on after %d: step %d accumulated work %r, expected %r" % (
+                    c["k"], c["tk"], c["N"], c["on1"], c["off"], c["on2"], t, o["W"], float(W)), {"kind": "accw-toggle", "case": c})
+                break
+        run.count("accwtoggle%d" % k, True)
+
+
+def tsf_tie_part(run, r, runner, n):
+    """timeStepFactor 2, 3, 5 on every restraint kind and schedule (centres or force constant; continuous, staged, lambdaSchedule), every segmentation: the extracted
+    protocol run_tsf (coq/C06/RestraintTSF.v) against the implementation after every event (centres, stage, first step), and
+    the closed form of C06_center_schedule_timestepfactor: centre = schedule at the last updated step."""
+    cases = []
+    tries = 0
+    while len(cases) < n and tries < 60 * n:
+        tries += 1
+        c = gen_case(r, len(cases))
+        if c["it0"] > 2 ** 40:
+            continue
+        c["accw"] = False
+        c["tsf"] = r.choice([2, 3, 5])
+        cases.append(c)
+    scn, ml, ds = [], [], []
+    for k, c in enumerate(cases):
+        L = scenario(c, k, runner.scratch)
+        L = [("  timeStepFactor %d\n}" % c["tsf"]).split("\n") if False else l for l in L]
+        out = []
+        inbias = False
+        for l in L:
+            if l.startswith(("harmonic {", "linear {", "harmonicWalls {")):
+                inbias = True
+            if inbias and l == "}":
+                out.append("  timeStepFactor %d" % c["tsf"])
+                inbias = False
+            out.append(l)
+        scn += out
+        m_, d = model_case(c, runner.wallsinit)
+        ml.append("RUNF %d %s" % (c["tsf"], m_[4:]))
+        ds.append(d)
+    rc, mout, e = V.run_lines(runner.model, ml)
+    rc2, iout, e2 = V.run_lines(runner.unit, scn, cwd=runner.scratch, timeout=900)
+    impl = parse_impl(iout)
+    for k, c in enumerate(cases):
+        cs = impl.get(k)
+        f = c["tsf"]
+        run.dist("timeStepFactor-%d:%s" % (f, c["mode"]))
+        rp = {"kind": "scenario", "case": c, "timeStepFactor": f}
+        if cs is None or not cs["complete"] or len(cs["steps"]) != len(c["events"]) or any("err=ok" not in l for l in cs["config"]):
+            run.mismatch("timestepfactor", {"case": c}, ((cs or {}).get("config", []) + (cs or {}).get("raw", []))[-3:], "complete run")
+            continue
+        recs = [parse_fields(p_) for p_ in (mout[k].split(" ; ") if k < len(mout) else [])]
+        first = c["it0"]
+        bad = None
+        for j, o in enumerate(cs["steps"]):
+            t = o["it"]
+            tu = f * (t // f)
+            # closed form (continuous): the schedule at the last updated step, the configured centres before the first update
+            if c["mode"] == "cc":
+                want = [fr(x) for x in c["centers"]] if tu < first else spec_centers(c, ds[k], tu, first)
+                if not all(same_mod(a, b, v) for a, b, v in zip(want, o["C"], c["vars"])):
+                    run.violation("timestepfactor:continuous-centers", "timeStepFactor %d, step %d (first %d, N %d): centres %r, the schedule at the last updated step %d gives %r" % (f, t, first, c["N"], o["C"], tu, [float(x) for x in want]), rp)
+                    break
+            if j < len(recs) and bad is None:
+                d_ = recs[j]
+                mc = flist(d_["C"]) if c["kind"] != "walls" else []
+                if int(d_["it"]) != t or (c["mode"] != "none" and (int(d_["ST"]) != o["ST"] or int(d_["FS"]) != o["FS"])) or \
+                   not all(same_mod(a, b, v) for a, b, v in zip(mc, o["C"], c["vars"])) or \
+                   (o["K"] is not None and not close(float.fromhex(d_["K"]), o["K"])) or not close(float.fromhex(d_["FE"]), o["FE"]):
+                    bad = "event %d step %d: centres/k/stage/first/FE impl %r %r %d %d %r, model %r %r %s %s %r" % (
+                        j, t, o["C"], o["K"], o["ST"], o["FS"], o["FE"], mc, float.fromhex(d_["K"]), d_["ST"], d_["FS"], float.fromhex(d_["FE"]))
+        if len(recs) != len(cs["steps"]):
+            bad = bad or "model executed %d events, implementation %d" % (len(recs), len(cs["steps"]))
+        if bad:
+            run.mismatch("timestepfactor", {"case": c, "model_case": ml[k]}, bad, "agreement")
+        run.count("tsftie%d" % k, c["mode"] != "none")
 
 
 def tsf_part(run, runner):
@@ -1660,14 +2039,10 @@ def tsf_part(run, runner):
                 if not close(o["C"][0], want):
                     run.violation("timestepfactor:continuous-centers", "timeStepFactor 2, step %d: centre %r, schedule at the last updated step %d prescribes %r" % (t, o["C"][0], tu, want), rp)
             elif k == 4:
-                # theorem C06_center_schedule_timestepfactor: centre = schedule at last_update = f*(min(t, t0+N)/f) = 2 for t >= 2
-                lu = 2 * (min(t, 3) // 2)
-                model = 1.0 + 2.0 * min(1.0, lu / 3.0)
-                if not close(o["C"][0], model):
-                    run.violation("timestepfactor:continuous-centers", "timeStepFactor 2, N 3, step %d: centre %r, the schedule at the last update not beyond the end (%d) gives %r" % (t, o["C"][0], lu, model), rp)
+                # theorem C06_center_schedule_timestepfactor: centre = schedule at the last updated step f*(t/f): the target from step 4 on
                 want = 1.0 + 2.0 * min(1.0, tu / 3.0)
                 if not close(o["C"][0], want):
-                    run.violation("timestepfactor:continuous-schedule-stops-short", "timeStepFactor 2, centres 1->3, targetNumSteps 3, step %d: centre %r, schedule at the last updated step %d prescribes %r (the target is never reached)" % (t, o["C"][0], tu, want), rp)
+                    run.violation("timestepfactor:continuous-schedule-stops-short", "timeStepFactor 2, centres 1->3, targetNumSteps 3, step %d: centre %r, schedule at the last updated step %d prescribes %r" % (t, o["C"][0], tu, want), rp)
             elif k == 1:
                 want = 2.0 + 2.0 * min(1.0, tu / 4.0) ** 2
                 if not close(o["K"], want):
@@ -1678,6 +2053,8 @@ def tsf_part(run, runner):
                 if not close(o["C"][0], want):
                     run.violation("timestepfactor:staged-schedule-misses-steps", "timeStepFactor 2, centres 1->3, targetNumSteps 4, 2 stages, step %d: centre %r, schedule (at the last updated step %d) prescribes %r" % (t, o["C"][0], tu, want), rp)
             else:
+                if o["TI"] and abs(o["TI"][0][1] - 1.0) > 1e-4:
+                    run.violation("timestepfactor:ti-divisor", "timeStepFactor 2, k 2->4, targetNumSteps 3, 2 stages, dU/dlambda 1 at every step: dA/dLambda %r written at step %d (only every second step is sampled, the sum is divided by targetNumSteps)" % (o["TI"][0][1], t), rp)
                 want = 2.0 + 2.0 * min(2, tu // 3) / 2.0
                 if not close(o["K"], want):
                     run.violation("timestepfactor:staged-schedule-misses-steps", "timeStepFactor 2, k 2->4, targetNumSteps 3, 2 stages, step %d: k %r, schedule (at the last updated step %d) prescribes %r" % (t, o["K"], tu, want), rp)
@@ -1856,7 +2233,12 @@ def check(run):
                               {"kind": "scenario", "case": c, "scenario": scenario(c, 0, ".")})
                 continue
             if any("err=ok" not in l for l in cs["config"]):
-                run.mismatch("config", {"case": c}, [l for l in cs["config"] if "err=ok" not in l][:2], "accepted")
+                errs = [l for l in cs["config"] if "err=ok" not in l]
+                if errs[0].startswith("STEP "):
+                    run.violation("step:error", "a valid restraint history raised an error: %s" % errs[0][:200],
+                                  {"kind": "scenario", "case": c, "scenario": scenario(c, 0, ".")})
+                else:
+                    run.mismatch("config", {"case": c}, errs[:2], "accepted")
                 continue
             run.count(key, nontrivial(c, ds[k], cs["steps"]))
             ms = parse_model_line(mout[k]) if k < len(mout) else []
@@ -1881,10 +2263,15 @@ def check(run):
     manifold_part(run, r, runner, 60 if quick else 3000)
     kman_part(run, r, runner, 40 if quick else 1500)
     script_part(run, r, runner, 30 if quick else 600)
+    ediff_moving_part(run, r, runner, 40 if quick else 1000)
     traj_part(run, r, runner, 30 if quick else 600)
     badconfig_part(run, runner)
+    accw_toggle_part(run, r, runner, 20 if quick else 500)
+    reconfig_part(run, r, runner, 30 if quick else 800)
+    session_part(run, r, runner, 30 if quick else 800)
     extl_part(run, r, runner, 30 if quick else 800)
     tsf_part(run, runner)
+    tsf_tie_part(run, r, runner, 40 if quick else 1000)
     ti_part(run, r, runner, 40 if quick else 1500)
     run.cov["correspondence"].update({"scenarios": len(cases), "regression_scenarios": len(wit)})
 
